@@ -10,6 +10,27 @@ S_row = S("LPFwriteRow.inc", r"static\s+void\s+LPFwriteRow\s*\(\s*const\s+SPxLPB
 S_rows = S("LPFwriteRows.inc", r"static\s+void\s+LPFwriteRows\s*\(\s*const\s+SPxLPBase<R>&\s+p_lp,[^)]*std::ostream&\s+p_output,[^)]*const\s+NameSet\*\s+p_rnames,[^)]*const\s+NameSet\*\s+p_cnames[^)]*\)",
            [r"LPFwriteRow\(p_lp,\s*p_output,\s*p_cnames,\s*p_lp\.rowVector\(i\),\s*lhs,\s*R\(infinity\)\);", r"LPFwriteRow\(p_lp,\s*p_output,\s*p_cnames,\s*p_lp\.rowVector\(i\),\s*R\(-infinity\),\s*rhs\);",
             r"LPFgetRowName\(p_lp,\s*i,\s*p_rnames,\s*name,\s*i\)", r'"_1 : "', r'"_2 : "'])
+FR = "src/soplex/spxlpbase_rational.hpp"
+S_bnd = S("LPFwriteBounds.inc", r"static\s+void\s+LPFwriteBounds\s*\(\s*const\s+SPxLPBase<R>&\s+p_lp,[^)]*std::ostream&\s+p_output,[^)]*const\s+NameSet\*\s+p_cnames[^)]*\)",
+          [r'p_output\s*<<\s*"Bounds\\n";', r"else if\(lower\s*(!=|>)\s*0\)", r'"   -Inf <= "', r'" free\\n"', r"getColName\(p_lp,\s*j,\s*p_cnames,\s*name\)"])
+S_bnd_rat = {"as": "LPFwriteBounds_rat.inc", "file": FR, "sig": r"static\s+void\s+LPFwriteBounds\s*\(\s*const\s+SPxLPBase<Rational>&\s+p_lp,[^)]*std::ostream&\s+p_output,[^)]*const\s+NameSet\*\s+p_cnames,[^)]*SPxOut\*\s+spxout[^)]*\)",
+             "must_contain": [r'p_output\s*<<\s*"Bounds\\n";', r"double\(lower\)\s*>\s*-double\(infinity\)", r'"   -Inf <= "', r'" free\\n"', r"p_output\.tellp\(\)"]}
+def bounds_loop(rat):
+    return [{"function": r"H::body\(this\)", "loop": 0, "locals": ["j", "name"] + (["pos"] if rat else []),
+      "invariants": ["0 <= j && j <= g_nc", "l_n == 0 && l_name == -1 && l_bad == 0", "w_lines <= 1"] + (["pos == 0"] if rat else []) + [
+                     "(g_nc > 0 && j <= g_j) ==> w_lines == 0",
+                     "(g_nc > 0 && j > g_j) ==> ((w_lines == 0 && g_default_ok == 1) || (w_lines == 1 && w_ok == 1))"],
+      "assigns": ["j", "__CPROVER_object_whole(name)", "l_n", "l_name", "l_bad", "w_n", "w_lines", "w_ok", "__CPROVER_object_whole(l_k)", "__CPROVER_object_whole(l_v)",
+                  "__CPROVER_object_whole(w_k)", "__CPROVER_object_whole(w_v)"] + (["pos"] if rat else []),
+      "decreases": "g_nc - j"}]
+def bounds_mutants(sl, rat):
+    lo_fin = "else if(double(lower) > -double(infinity))" if rat else "else if(lower > R(-infinity))"
+    return [
+     {"name": "seeded_negative_lower_dropped", "slice": sl, "find": "else if(lower != 0)", "replace": "else if(lower > 0)"},
+     {"name": "range_zero_test_flipped", "slice": sl, "find": "            if(lower != 0)", "replace": "            if(lower == 0)"},
+     {"name": "fixed_test_ge", "slice": sl, "find": "if(lower == upper)", "replace": "if(lower >= upper)"},
+     {"name": "free_and_neginf_swapped", "slice": sl, "regex": True, "find": r"else if\((double\(upper\) < double\(infinity\)|upper < R\(infinity\))\)\n\s*p_output << \"   -Inf <= \"", "replace": r'else if(!(\1))\n         p_output << "   -Inf <= "'},
+    ]
 rows_loop = [{"function": r"H::body\(this\)", "loop": 0, "locals": ["i", "name"],
   "invariants": ["0 <= i && i <= g_nr", "w_all_ok == 1",
                  "(g_nr > 0 && i <= g_r) ==> w_calls == 0",
@@ -28,6 +49,7 @@ doc = {
  "defines": {"VCAP": "8", "RAT_INF": "4503599627370496LL"},
  "flags": ["--bounds-check", "--pointer-check"],
  "timeout_s": 120,
+ "replay": {"cpp": "replay.cpp", "asan": False, "extra_src": ["LIB"]},
  "constants": [{"name": "VERIF_SOPLEX_INFINITY", "file": "src/soplex/spxdefines.h", "regex": r"typedef\s+double\s+Real;.*?#define\s+SOPLEX_DEFAULT_INFINITY\s+([0-9.eE+]+)\s"}],
  "conformance": [
   {"file": "src/soplex/spxdefines.cpp", "regex": r"const\s+Real\s+infinity\s*=\s*SOPLEX_DEFAULT_INFINITY\s*;", "why": "`infinity` is SOPLEX_DEFAULT_INFINITY"},
@@ -40,6 +62,7 @@ doc = {
   "what a written row denotes when read back (= v: [v,v]; <= v: [-inf,v]; >= v: [v,+inf]) is the specification, taken from the LP file format",
   "SPxLPBase is a stub over two side arrays and an array of row-vector tags; at most VCAP = 8 rows (object-size cap; the loop proof is inductive)",
   "MPSgetRHS_rat: Rational is a struct over long long (the body only copies and compares double(x) with +-double(infinity)); operator double() is the monotone map exact below the sentinel RAT_INF = 2^52 and +-infinity from there on (a long long cannot reach the 1e100 threshold the code uses)",
+  "LPFwriteBounds: the stream stub collects the events of the current line (indent / number / ' <= ' / ' = ' / name / '   -Inf <= ' / ' free' / newline); at the end of a line naming the ghost column the specification function spec_bounds_line_ok() (contract.c: the six LP-format bound-line forms and the interval each denotes, default [0,+inf)) judges it; getColName is a stub (marker name, records the column); rational twin: tellp() returns 0 (the line-length warning is not modelled), `lower != 0` / `lower == upper` compare the long long",
   "sides are assumed not NaN; `infinity` is extracted from the tree; assert() compiled out; `throw` calls verif_throw() (allowed only for a free row in MPSgetRHS)",
  ],
  "instances": [
@@ -61,6 +84,11 @@ doc = {
      {"name": "equations_split", "slice": "LPFwriteRows.inc", "find": "rhs < R(infinity) && lhs != rhs)", "replace": "rhs < R(infinity))"},
      {"name": "suffixes_swapped", "slice": "LPFwriteRows.inc", "find": '"_1 : "', "replace": '"_2 : "'},
      {"name": "first_half_bounded_by_rhs", "slice": "LPFwriteRows.inc", "find": "p_lp.rowVector(i), lhs, R(infinity));", "replace": "p_lp.rowVector(i), lhs, rhs);"}], 50),
+  dict(inst("LPFwriteBounds", "LPFwriteBounds<R>(p_lp, p_output, p_cnames)  [spxlpbase_real.hpp]", [S_bnd], bounds_loop(False), bounds_mutants("LPFwriteBounds.inc", False), 100),
+       harness="h_LPFwriteBounds", enforce="w_LPFwriteBounds"),
+  dict(inst("LPFwriteBounds_rat", "LPFwriteBounds(const SPxLPBase<Rational>&, p_output, p_cnames, spxout)  [spxlpbase_rational.hpp]", [S_bnd_rat], bounds_loop(True), bounds_mutants("LPFwriteBounds_rat.inc", True), 100),
+       harness="h_LPFwriteBounds", enforce="w_LPFwriteBounds",
+       rmode="Rational = ordered-group long long; double(x) is the monotone map that is exact below the sentinel RAT_INF = 2^52 and +-infinity from there on"),
  ],
 }
 json.dump(doc, open(os.path.join(os.path.dirname(os.path.abspath(__file__)), "unit.json"), "w"), indent=1)
